@@ -536,7 +536,7 @@ func (r *FnRun) execUnOp(st *State, fr *frame, x *ssa.UnOp) *V {
 			return st.sym("abs", x.Type())
 		}
 		r.accessCheck(st, fr, x, l, false)
-		v := st.load(l)
+		v := st.nameV("ld", st.load(l))
 		if v.K == KInt && isRefType(x.Type()) {
 			// references stored in memory are older than anything allocated later
 			st.assume("(< " + v.S + " " + st.ghost["alloc"] + ")")
@@ -835,7 +835,8 @@ func (r *FnRun) execLookup(st *State, x *ssa.Lookup) *V {
 	}
 	has := sAnd(sNot(sEq(h.ref, "0")), st.mapHas(h, k))
 	ev := &EvalCtx{run: r, st: st}
-	v := ev.iteV(has, st.mapGet(h, k), st.zero(h.vt))
+	v := st.nameV("lookup", ev.iteV(has, st.mapGet(h, k), st.zero(h.vt)))
+	has = st.nameV("has", vBool(has)).S
 	if v.K == KInt && isRefType(h.vt) {
 		st.assume("(< " + v.S + " " + st.ghost["alloc"] + ")")
 	}
@@ -1337,6 +1338,10 @@ func (r *FnRun) applyHavoc(st *State, ms *modset) {
 	for _, a := range cells {
 		if _, ok := st.cells[a]; ok {
 			st.cells[a] = st.sym("h."+a.Comment, a.Type().Underlying().(*types.Pointer).Elem())
+			if a.Comment == "rangeindex" {
+				// the hidden index of a range loop starts at -1 and is only ever incremented by the loop head
+				st.assume("(>= " + st.cells[a].S + " (- 1))")
+			}
 		}
 	}
 	if ms.all {
@@ -1376,12 +1381,21 @@ func (s *State) eventsAdvance() {
 	n1 := s.run.fresh("ev.n", "Int")
 	s.assume("(>= " + n1 + " " + n0 + ")")
 	s.ghost["ev.n"] = n1
+	s.callsAdvance()
 	for _, leaf := range evLeaves {
 		old := s.comp(leaf, 1, "Int")
 		s.havocLeaf(leaf)
 		nw := s.comp(leaf, 1, "Int")
 		s.assume("(forall ((i Int)) (! (=> (< i " + n0 + ") (= (select " + nw + " i) (select " + old + " i))) :pattern ((select " + nw + " i))))")
 	}
+}
+
+// callsAdvance: per-kind user-call counters only grow
+func (s *State) callsAdvance() {
+	old := s.comp("ncall", 1, "Int")
+	s.havocLeaf("ncall")
+	nw := s.comp("ncall", 1, "Int")
+	s.assume("(forall ((k Int)) (! (>= (select " + nw + " k) (select " + old + " k)) :pattern ((select " + nw + " k))))")
 }
 
 var evLeaves = []string{"ev.kind", "ev.a0", "ev.a1", "ev.a2", "ev.a3", "ev.a4", "ev.a5"}
@@ -1400,6 +1414,10 @@ func (s *State) emit(kind string, args ...string) {
 	nn := s.run.fresh("ev.n", "Int")
 	s.assume(sEq(nn, "(+ "+n+" 1)"))
 	s.ghost["ev.n"] = nn
+	if strings.HasPrefix(kind, "call:") || strings.HasPrefix(kind, "callfn:") {
+		id := s.run.eng.strID(kind)
+		s.writeLeaf("ncall", []string{id}, "Int", "(+ "+sSel(s.comp("ncall", 1, "Int"), id)+" 1)")
+	}
 }
 
 // ---- defers ----
